@@ -326,6 +326,23 @@ func (vc *VC) dispatchCall2(st *State, call *ast.CallExpr, recv *Term, args []Te
 		case "(*sync.Mutex).Unlock", "(*sync.RWMutex).Unlock", "(*sync.RWMutex).RUnlock":
 			vc.monitorExit(st, call, *recv, key != "(*sync.RWMutex).RUnlock")
 			return nil
+		case "(*sync.Cond).Wait":
+			// Wait = Unlock; (others run); Lock — on the single monitor of the owning object
+			if sel, ok := ast.Unparen(call.Fun).(*ast.SelectorExpr); ok {
+				if cs, ok := ast.Unparen(sel.X).(*ast.SelectorExpr); ok {
+					ot := vc.typeOf(cs.X)
+					if tc := vc.prog.DB.Types[typeName(ot)]; tc != nil && len(tc.Monitors) == 1 {
+						ms := &tc.Monitors[0]
+						keepLock := vc.lastLock
+						vc.monitorExitOn(st, call, cs.X, ot, tc, ms)
+						vc.monitorEnterOn(st, cs.X, ot, tc, ms)
+						vc.lastLock = keepLock
+						return nil
+					}
+				}
+			}
+			vc.havocHeap(st, "cond.Wait")
+			return nil
 		}
 	}
 	if c := vc.prog.DB.Funcs[key]; c != nil {
@@ -663,9 +680,48 @@ func (vc *VC) contractCall(st *State, call *ast.CallExpr, c *FuncContract, fn *t
 	bindResultNames(names, sig, rs)
 	env2 := &SpecEnv{vc: vc, st: st, old: pre, names: names, pkg: fn.Pkg()}
 	for _, e := range c.Ensures {
+		// postconditions over the callee's own ghost locals (or atlock states) mean nothing to a caller
+		skip := false
+		for _, g := range c.GhostVars {
+			if specMentions(e.Expr, g.Name) {
+				skip = true
+			}
+		}
+		if skip || specMentions(e.Expr, "atlock") {
+			continue
+		}
 		st.assume(vc.nameTerm("ens", vc.specEvalBool(env2, e.Expr)))
 	}
 	return rs
+}
+
+func specMentions(e SExpr, name string) bool {
+	switch e := e.(type) {
+	case *SIdent:
+		return e.Name == name
+	case *SBin:
+		return specMentions(e.L, name) || specMentions(e.R, name)
+	case *SUn:
+		return specMentions(e.X, name)
+	case *SSel:
+		return specMentions(e.X, name)
+	case *SIndex:
+		return specMentions(e.X, name) || specMentions(e.I, name)
+	case *SSlice:
+		return specMentions(e.X, name) || (e.Lo != nil && specMentions(e.Lo, name)) || (e.Hi != nil && specMentions(e.Hi, name))
+	case *SCall:
+		if specMentions(e.Fun, name) {
+			return true
+		}
+		for _, a := range e.Args {
+			if specMentions(a, name) {
+				return true
+			}
+		}
+	case *SQuant:
+		return specMentions(e.Body, name)
+	}
+	return false
 }
 
 // objectTypePatterns records the field arrays of the struct type t points to as loop effects.
@@ -870,6 +926,10 @@ func (vc *VC) monitorEnter(st *State, call *ast.CallExpr, mu Term) {
 	if ms == nil {
 		return
 	}
+	vc.monitorEnterOn(st, owner, ot, tc, ms)
+}
+
+func (vc *VC) monitorEnterOn(st *State, owner ast.Expr, ot types.Type, tc *TypeContract, ms *MonitorSpec) {
 	base := vc.eval(st, owner)
 	s := structOf(ot)
 	// other threads may have changed the protected fields: havoc them at this object
@@ -879,6 +939,12 @@ func (vc *VC) monitorEnter(st *State, call *ast.CallExpr, mu Term) {
 			if f.Name() == fname {
 				nv := vc.fresh(fname, sortOfType(f.Type()))
 				st.assume(vc.rangeFact(f.Type(), nv))
+				// values published by other threads are not objects this call allocates itself
+				if nv.Sort == SSlc {
+					st.assume(app(SBool, "<=", sbase(nv), Term{"alloc$base", SInt}))
+				} else if heapRefLike[vc.fieldName(ot, f)] {
+					st.assume(app(SBool, "<=", nv, Term{"alloc$base", SInt}))
+				}
 				vc.writeField(st, base, ot, f, nv)
 			}
 		}
@@ -897,6 +963,10 @@ func (vc *VC) monitorExit(st *State, call *ast.CallExpr, mu Term, write bool) {
 	if ms == nil {
 		return
 	}
+	vc.monitorExitOn(st, call, owner, ot, tc, ms)
+}
+
+func (vc *VC) monitorExitOn(st *State, call *ast.CallExpr, owner ast.Expr, ot types.Type, tc *TypeContract, ms *MonitorSpec) {
 	base := vc.eval(st, owner)
 	for _, inv := range tc.Invariants {
 		env := &SpecEnv{vc: vc, st: st, old: st, names: map[string]Val{"self": {base, ot}}, pkg: vc.cur().pkg}
@@ -955,6 +1025,8 @@ func (vc *VC) callEffects(call *ast.CallExpr, ef *effects) {
 	if id, ok := ast.Unparen(call.Fun).(*ast.Ident); ok {
 		if b, ok := info.Uses[id].(*types.Builtin); ok {
 			switch b.Name() {
+			case "close":
+				ef.ghosts["chanClosed"] = true
 			case "make", "new":
 				vc.allocEffects(info.Types[call].Type, ef)
 			case "append", "copy", "delete", "clear":
@@ -963,7 +1035,15 @@ func (vc *VC) callEffects(call *ast.CallExpr, ef *effects) {
 					if t := info.Types[call.Args[0]].Type; t != nil {
 						switch u := types.Unalias(t).Underlying().(type) {
 						case *types.Slice:
-							ef.untargeted(elemsName(sortOfType(u.Elem())))
+							if b.Name() == "append" {
+								// modelled as a fresh backing array: existing arrays are untouched
+								if ef.allocd == nil {
+									ef.allocd = map[string]bool{}
+								}
+								ef.allocd[elemsName(sortOfType(u.Elem()))] = true
+							} else {
+								ef.untargeted(elemsName(sortOfType(u.Elem())))
+							}
 						case *types.Map:
 							ks, vs := sortOfType(u.Key()), sortOfType(u.Elem())
 							ef.untargeted(mapDomName(ks, vs))
@@ -986,6 +1066,13 @@ func (vc *VC) callEffects(call *ast.CallExpr, ef *effects) {
 					for k := range sub.heap {
 						ef.untargeted(k)
 					}
+					for k := range sub.allocd {
+						if ef.allocd == nil {
+							ef.allocd = map[string]bool{}
+						}
+						ef.allocd[k] = true
+					}
+					ef.waits = ef.waits || sub.waits
 					ef.heapExt = ef.heapExt || sub.heapExt
 					ef.patterns = append(ef.patterns, sub.patterns...)
 					for k := range sub.ghosts {
@@ -1004,6 +1091,31 @@ func (vc *VC) callEffects(call *ast.CallExpr, ef *effects) {
 		return
 	}
 	key := funcKey(fn)
+	if key == "(*sync.Cond).Wait" || key == "(*sync.Mutex).Lock" || key == "(*sync.RWMutex).Lock" || key == "(*sync.RWMutex).RLock" {
+		// (re)acquiring a monitor: the protected fields may have been changed by other threads
+		if sel, ok := ast.Unparen(call.Fun).(*ast.SelectorExpr); ok {
+			if cs, ok := ast.Unparen(sel.X).(*ast.SelectorExpr); ok {
+				ot := info.Types[cs.X].Type
+				if ot != nil {
+					if tc := vc.prog.DB.Types[typeName(ot)]; tc != nil {
+						if s := structOf(ot); s != nil {
+							for _, ms := range tc.Monitors {
+								for _, p := range ms.Protects {
+									for i := 0; i < s.NumFields(); i++ {
+										if s.Field(i).Name() == p {
+											ef.untargeted(vc.fieldName(ot, s.Field(i)))
+										}
+									}
+								}
+								ef.waits = ef.waits || key == "(*sync.Cond).Wait"
+							}
+						}
+					}
+				}
+			}
+		}
+		return
+	}
 	if c := vc.prog.DB.Funcs[key]; c != nil {
 		for g := range vc.prog.contractGhostAssigns(c) {
 			ef.ghosts[g] = true
